@@ -37,10 +37,15 @@
     write chain ([C03_writes_form_chain]) this gives the real-time and per-thread monotonicity
     clauses: the instant k lies after every write completed before the call and before the call
     of every later load of the same thread.
+
+    RUN LENGTH INSTEAD OF [GenBound] ([ASModel.GenLen]): without the [set_generation] hook a generation
+    counter grows by at most 4 per step from 0, so for every run of fewer than 2^62 steps [GenBound]
+    holds in every state by itself; [RunOKLen] is [RunOK] with that hypothesis replaced by the bound
+    on the length of the schedule, and the theorem holds for it as well ([..._len] below).
 *)
 From ASModel Require Import Base State Orderings_gen Step Run Progress Hist Local Inv InvTl InvProto InvStep Sum StepCases.
 From ASModel Require Import GenDefs Gen1 Gen2 Gen EnvDefs Env4 Env AccDefs Acc1 Acc2 Acc3 Acc4 Acc5 Acc6 Acc7 Acc.
-From ASModel Require Import ProtDefs Prot1 Prot11 Prot16 Prot Typed LinDefs Lin2 Lin Safe1 Safe2 Safe7 Safe8 Safe Main.
+From ASModel Require Import ProtDefs Prot1 Prot11 Prot16 Prot Typed LinDefs Lin2 Lin Safe1 Safe2 Safe7 Safe8 Safe Main GenLen.
 
 Theorem C03_fast_confirm : forall cf s l c v j x,
   let n := own_node l in
@@ -99,6 +104,24 @@ Theorem C03_generation_unique : forall cf inits progs sched,
   GenInvQ (run_state cf (init_state inits progs) sched).
 Proof. exact run_GenInv_bound. Qed.
 
+Theorem C03_load_linearizable_len : forall cf inits progs sched,
+  RunOKLen cf inits progs sched ->
+  let s0 := init_state inits progs in
+  forall t i cm c h pa pb xa tb xb,
+  nth_error (t_prog (thr s0 t)) (N.to_nat i) = Some cm -> is_load_of cm c h ->
+  (pa <= pb)%nat ->
+  nth_error sched pa = Some (t, xa) ->
+  t_status (thr (St cf s0 sched pa) t) = Running -> t_stack (thr (St cf s0 sched pa) t) = [] ->
+  t_cmdi (thr (St cf s0 sched pa) t) = i ->
+  nth_error sched pb = Some (tb, xb) ->
+  t_cmdi (thr (St cf s0 sched pb) t) = i -> t_cmdi (thr (St cf s0 sched (S pb)) t) = i + 1 ->
+  exists v, (match cm with
+             | CLoad _ _ => exists d, hnd (St cf s0 sched (S pb)) h = HGuard v d
+             | _ => hnd (St cf s0 sched (S pb)) h = HOwned v
+             end) /\
+    exists k, (pa + 1 <= k <= pb + 1)%nat /\ mem (sh (St cf s0 sched k)) (LStore c) = v.
+Proof. exact GenLen.C03_load_linearizable_len. Qed.
+
 Print Assumptions C03_fast_confirm.
 Print Assumptions C03_exit_returns_value.
 Print Assumptions C03_fallback_candidate.
@@ -106,3 +129,4 @@ Print Assumptions C03_fallback_confirm.
 Print Assumptions C03_writes_form_chain.
 Print Assumptions C03_load_linearizable.
 Print Assumptions C03_generation_unique.
+Print Assumptions C03_load_linearizable_len.
